@@ -120,10 +120,21 @@ pub fn build(id: &str, tier: &str, seed: u64, threads: usize) -> Option<Plan> {
                     }
                 }
             }
+            // one window holds more than 1 / 4 / 16 MiB (read-ahead or batching limits) and the file is longer than that
+            for (bsz, w, len) in [(65464usize, 20u16, (1u64 << 20) + 4321), (1000, 4500, (4 << 20) + 999), (65464, 300, (17 << 20) + 12345), (1000, 17000, (17 << 20) + 777)] {
+                if q && len > (17 << 20) + 1000 {
+                    continue;
+                }
+                cfgs.push(Cfg { role: Role::Send, b: bsz, w, len, hs: true, every: 0 });
+            }
             let bases = make_bases(&cfgs, seed, threads);
             for (b, o) in &bases {
                 cases.push(b.spec.clone());
                 let _ = o;
+                if b.spec.w as u64 * b.spec.b as u64 > (1 << 20) {
+                    // huge windows: fault-free only (every partial ACK repeats a whole window)
+                    continue;
+                }
                 if b.spec.nblocks() > 40 {
                     // long transfers: fault-free, every ack pattern, a few random fault plans
                     fam_ack_patterns(b, &mut cases);
@@ -169,9 +180,15 @@ pub fn build(id: &str, tier: &str, seed: u64, threads: usize) -> Option<Plan> {
                     }
                 }
             }
+            // one window holds more than 1 / 16 MiB and the upload is longer than that
+            cfgs.push(Cfg { role: Role::Recv, b: 65464, w: 20, len: (1 << 20) + 4321, hs: false, every: 0 });
+            cfgs.push(Cfg { role: Role::Recv, b: 65464, w: 300, len: (17 << 20) + 12345, hs: false, every: 0 });
             let bases = make_bases(&cfgs, seed, threads);
             for (b, _) in &bases {
                 cases.push(b.spec.clone());
+                if b.spec.w as u64 * b.spec.b as u64 > (1 << 20) {
+                    continue;
+                }
                 if b.spec.nblocks() > 40 {
                     fam_random(b, &mut rng, 3, 4, &mut cases);
                     continue;
@@ -364,10 +381,28 @@ pub fn build(id: &str, tier: &str, seed: u64, threads: usize) -> Option<Plan> {
                     for mut c in v {
                         c.clean = clean;
                         c.label = format!("{}:{}", c.label, if clean { "clean" } else { "keep" });
+                        if c.label.starts_with("silent:") || c.label.starts_with("error:") {
+                            // the same aborted upload replacing a longer / shorter file (overwrite mode)
+                            for (pre, pn) in [(c.len + 100, "over-longer"), (c.len / 2 + 1, "over-shorter")] {
+                                let mut d = c.clone();
+                                d.pre_existing = pre;
+                                d.label = format!("{}:{}", d.label, pn);
+                                cases.push(d);
+                            }
+                        }
                         cases.push(c);
                     }
                 }
                 fam_write_fail(b, &mut cases);
+                {
+                    let mut v = Vec::new();
+                    fam_write_fail(b, &mut v);
+                    for mut c in v {
+                        c.pre_existing = c.len + 100;
+                        c.label = format!("{}:over-longer", c.label);
+                        cases.push(c);
+                    }
+                }
             }
             Some(Plan {
                 cases,
